@@ -139,22 +139,23 @@ type HookAnswer struct {
 
 // Policy steers the kernel's choices for a stage.
 type Policy struct {
-	Name        string
-	Shuffle     bool // pick uniformly among enabled system actions instead of the eager order
-	HoldWatch   int  // permille: chance per step that watch frames are not deliverable this step
-	APIFault    int  // permille per served in-sync request
-	APIFaults   []string
-	HookFault   int // permille per answered hook call
-	HookFaults  []string
-	WatchBreak  int  // permille per step: break one open watch stream
-	Crash       int  // permille per step
-	EnvProb     int  // permille per step: run one environment operation if any is enabled
-	AdvanceProb int  // permille per step: advance the clock although other actions are enabled
-	EnvWhenIdle bool // quiet stages: environment operations run whenever the system is idle
-	HardAdvance bool // clock advances also age parked calls (slow server / webhook), by up to 1.5 s per step
-	WatchGone   int  // permille per served WATCH request: answer 410 Gone, which makes the reflector relist (tombstones for what vanished meanwhile)
-	FaultFilter func(r *ReqRec) bool
-	Batch       int // permille per step: answer every parked call in one step (co-release)
+	Name           string
+	Shuffle        bool // pick uniformly among enabled system actions instead of the eager order
+	HoldWatch      int  // permille: chance per step that watch frames are not deliverable this step
+	APIFault       int  // permille per served in-sync request
+	APIFaults      []string
+	HookFaultBurst bool // a hook fault in a co-release step hits every hook call released in that step
+	HookFault      int  // permille per answered hook call
+	HookFaults     []string
+	WatchBreak     int  // permille per step: break one open watch stream
+	Crash          int  // permille per step
+	EnvProb        int  // permille per step: run one environment operation if any is enabled
+	AdvanceProb    int  // permille per step: advance the clock although other actions are enabled
+	EnvWhenIdle    bool // quiet stages: environment operations run whenever the system is idle
+	HardAdvance    bool // clock advances also age parked calls (slow server / webhook), by up to 1.5 s per step
+	WatchGone      int  // permille per served WATCH request: answer 410 Gone, which makes the reflector relist (tombstones for what vanished meanwhile)
+	FaultFilter    func(r *ReqRec) bool
+	Batch          int // permille per step: answer every parked call in one step (co-release)
 	// ForceFault, when it returns a fault kind, is injected whatever the rates say
 	// (scripted bursts, e.g. a conflict on every attempt of one retry loop)
 	ForceFault func(r *ReqRec) string
@@ -1149,6 +1150,7 @@ func (w *World) StepOnce(p *Policy) bool {
 		// released goroutines run concurrently with no kernel step (and no
 		// happens-before edge) between them
 		n := 0
+		burst := ""
 		for _, b := range acts {
 			switch b.kind {
 			case "serve":
@@ -1162,9 +1164,14 @@ func (w *World) StepOnce(p *Policy) bool {
 				w.Serve(b.req, fault)
 				n++
 			case "hook":
-				fault := ""
-				if p.HookFault > 0 && len(p.HookFaults) > 0 && t.Chance(p.HookFault, "hookfault?") {
+				fault := burst
+				if fault == "" && p.HookFault > 0 && len(p.HookFaults) > 0 && t.Chance(p.HookFault, "hookfault?") {
 					fault = p.HookFaults[t.Pick(len(p.HookFaults), "hookfault")]
+					if p.HookFaultBurst {
+						// the webhook is down: every other call released in this step fails, too
+						burst = fault
+						w.FaultsFired["hook:burst"]++
+					}
 				}
 				w.answerHookWithProgram(b.hook, fault)
 				n++
